@@ -1466,12 +1466,12 @@ def directed_reopen():
             cn = 'Mach%d' % j
             classes.append({'name': cn, 'kind': 'class', 'supers': ['StateVariable'], 'fields': [], 'ctors': []})
             preds += [{'name': cn + ':A', 'owner': cn, 'params': [], 'supers': [], 'body': []}, {'name': cn + ':B', 'owner': cn, 'params': [], 'supers': [], 'body': []}]
-            main += [('new', cn, 'sv%d' % j, []), ('formula', True, 'a%d' % j, ['sv%d' % j], cn + ':A', [('start', R(10 * j)), ('end', R(10 * j + 10))])]
-            collide = [('formula', False, 'b', ['sv%d' % j], cn + ':B', [('start', R(10 * j)), ('end', R(10 * j + 10))])]
+            main += [('new', cn, 'sv%d' % j, []), ('formula', True, 'a%d' % j, ['sv%d' % j], cn + ':A', [('start', R(10 * j)), ('end', R(10 * j + 10)), ('duration', R(10))])]
+            collide = [('formula', False, 'b', ['sv%d' % j], cn + ':B', [('start', R(10 * j)), ('end', R(10 * j + 10)), ('duration', R(10))])]
         else:
             main += [('new', 'ReusableResource', 'rr%d' % j, [R(1)]),
-                     ('formula', True, 'u%d' % j, ['rr%d' % j], 'ReusableResource:Use', [('amount', R(1)), ('start', R(10 * j)), ('end', R(10 * j + 10))])]
-            collide = [('formula', False, 'b', ['rr%d' % j], 'ReusableResource:Use', [('amount', R(1)), ('start', R(10 * j)), ('end', R(10 * j + 10))])]
+                     ('formula', True, 'u%d' % j, ['rr%d' % j], 'ReusableResource:Use', [('amount', R(1)), ('start', R(10 * j)), ('end', R(10 * j + 10)), ('duration', R(10))])]
+            collide = [('formula', False, 'b', ['rr%d' % j], 'ReusableResource:Use', [('amount', R(1)), ('start', R(10 * j)), ('end', R(10 * j + 10)), ('duration', R(10))])]
         other = [('formula', False, 'q', [], qn, [])]
         brs = [collide, other] if first else [other, collide]
         preds.append({'name': g, 'owner': None, 'params': [], 'supers': [], 'body': [('disj', 'dj%d' % j, brs)]})
